@@ -34,6 +34,10 @@ CLAIMED = {
          'Symbolic execution of the real PeriodLimit.TakeCtx/calcExpireSeconds and TokenLimiter.reserveN/AllowN/startMonitor/NewTokenLimiter (go/ssa) together with periodscript.lua and tokenscript.lua (read from the tree, run by the engine Lua evaluator on a Redis model): inductive one-step checks from arbitrary stored state (quota, period, burst, counters, TTLs, clock symbolic; rate case-split 1..8), bounded histories of 3-6 calls by two instances against a reference bucket incl. the window bound sum(granted) <= burst + rate*elapsed, store faults and cancelled contexts.',
          'go/ssa translation, gosym, Lua-subset evaluator + Redis model (trusted), z3; Lua numbers are exact integers/reals (|values| < 2^53 assumed); x/time/rate replaced by its contract (recorded arbitrary answer); callers\' clocks agree with the store clock and are non-decreasing (assumption); whole seconds.',
          'SSA symbolic execution + SMT (z3) with a Lua front-end over a Redis model; one-step induction + bounded histories'),
+ 'C13': ('DESIGN.md §4 C13',
+         'Symbolic execution of the real discov container (OnAdd/OnDelete/addKv/doRemoveKey/removeKv/getValues/notifyChange), cluster.handleWatchEvents/load/handleChanges/calculateChanges, the resolver subset() and the Kubernetes EventHandler: histories of 4-5 watch events and of puts followed by a full reload with keys and values as atoms (equality patterns chosen by the solver), exclusive and non-exclusive subscribers, map iteration order as a decision, against a ghost registry; listeners notified; kube handler publishes exactly the current address set.',
+         'go/ssa translation, gosym, z3; atoms (uninterpreted strings with ==, len as an uninterpreted function) for keys/values/IPs; values assumed non-empty; etcd client replaced by a harness fake returning the snapshot; request-timeout context stubbed; exclusive reload snapshots with two new keys for one value excluded (delivery order unspecified); rand.Shuffle = arbitrary swaps.',
+         'SSA symbolic execution + SMT (z3), bounded histories over atom strings'),
 }
 
 NA = {
